@@ -10,7 +10,7 @@ from ..core import Ctx
 from ..effects import STORAGE_READS
 from ..flow import ALL, find_path, names_in
 from ..model import AnalysisError, FunctionInfo, dotted, norm_text
-from .common import (edge_target, guarded_names, handler_exits, handler_nodes, hint_value, in_handler, kwarg, path_arg,
+from .common import (facts_at, known_null_call, edge_target, guarded_names, handler_exits, handler_nodes, hint_value, in_handler, kwarg, path_arg,
                      reachable_from, try_body_calls)
 
 EXPLANATION = (
@@ -55,6 +55,43 @@ def check(ctx: Ctx) -> None:
     ctx.floors["C10.R8"] = ctx.floors.pop("C08.R1")
 
 
+def _fold_digits(ctx: Ctx, f: FunctionInfo, e: ast.AST, at: int, depth: int = 0) -> Optional[str]:
+    """Fold a name built from constants and ONE digits-variable (f-string, +, %-format, str.format) with the variable
+    replaced by '0'; None if the expression is not of that shape."""
+    g = ctx.cfg(f)
+    if depth > 4:
+        return None
+    if isinstance(e, ast.Name):
+        defs = ctx.rd(f).reaching(at, e.id)
+        if len(defs) == 1 and next(iter(defs)) != g.entry:
+            d = next(iter(defs))
+            dn = g.nodes[d]
+            if dn.kind == "stmt" and isinstance(dn.ast, ast.Assign) and len(dn.ast.targets) == 1 and isinstance(dn.ast.targets[0], ast.Name):
+                return _fold_digits(ctx, f, dn.ast.value, d, depth + 1)
+        return None
+    if isinstance(e, ast.JoinedStr):
+        return "".join(str(x.value) if isinstance(x, ast.Constant) else "0" for x in e.values)
+    if isinstance(e, ast.BinOp) and isinstance(e.op, ast.Add):
+        parts = []
+        for side in (e.left, e.right):
+            if isinstance(side, ast.Constant) and isinstance(side.value, str):
+                parts.append(side.value)
+            elif isinstance(side, ast.Name):
+                parts.append("0")
+            else:
+                sub = _fold_digits(ctx, f, side, at, depth + 1)
+                if sub is None:
+                    return None
+                parts.append(sub)
+        return "".join(parts)
+    if isinstance(e, ast.BinOp) and isinstance(e.op, ast.Mod) and isinstance(e.left, ast.Constant) and isinstance(e.left.value, str):
+        return re.sub(r"%[sd]", "0", e.left.value)
+    if isinstance(e, ast.Call) and isinstance(e.func, ast.Attribute) and e.func.attr == "format" \
+            and isinstance(e.func.value, ast.Constant) and isinstance(e.func.value.value, str) and not e.keywords:
+        return re.sub(r"\{\d*\}", "0", e.func.value.value)
+    return None
+
+
 def int_is_guarded(ctx: Ctx, f: FunctionInfo, n: Node) -> Tuple[bool, str]:
     """Is this int(x) call total?"""
     g = ctx.cfg(f)
@@ -78,17 +115,13 @@ def int_is_guarded(ctx: Ctx, f: FunctionInfo, n: Node) -> Tuple[bool, str]:
                         return True, f"group {idx} of the metadata regex is `{groups[idx - 1]}` (decimal digits only)"
         return False, "regex group not provably digits-only"
     if isinstance(a, ast.Name):
-        dom = ctx.dom(f, ALL)
         v = a.id
         have: Set[str] = set()
-        for b in g.nodes:
-            if b.kind != "branch" or b.id not in dom[n.id] or not isinstance(b.ast, ast.Call):
-                continue
-            if isinstance(b.ast.func, ast.Attribute) and dotted(b.ast.func.value) == v:
-                t = edge_target(g, b, "true")
-                fl = edge_target(g, b, "false")
-                if t is not None and n.id in reachable_from(g, t, NORMAL) and (fl is None or n.id not in reachable_from(g, fl, NORMAL)):
-                    have.add(b.ast.func.attr)
+        rd = ctx.rd(f)
+        for pol, e, at in facts_at(ctx, f, n):
+            if pol == "true" and isinstance(e, ast.Call) and isinstance(e.func, ast.Attribute) and dotted(e.func.value) == v \
+                    and not e.args and rd.reaching(at, v) == rd.reaching(n.id, v):
+                have.add(e.func.attr)
         if "isdecimal" in have or ("isascii" in have and ("isdigit" in have or "isnumeric" in have)):
             return True, f"guarded by {sorted(have)}"
         if "isdigit" in have:
@@ -142,22 +175,19 @@ def r1(ctx: Ctx) -> None:
         name = v.elts[1]
         ok = False
         why = ""
-        if isinstance(name, ast.JoinedStr):
-            parts = [str(x.value) if isinstance(x, ast.Constant) else "0" for x in name.values]
-            s = "".join(parts)
-            ok = re.match(pat, s) is not None
-            why = f"legacy digits -> {s!r} matches the regex"
+        folded = _fold_digits(ctx, f, name, r.id)
+        if folded is not None:
+            ok = re.match(pat, folded) is not None
+            why = f"legacy digits -> {folded!r} matches the regex"
         elif isinstance(name, ast.Name):
-            dom = ctx.dom(f, ALL)
-            for b in g.nodes:
-                if b.kind == "branch" and b.id in dom[r.id] and isinstance(b.ast, ast.Name):
-                    defs = ctx.rd(f).reaching(b.id, b.ast.id)
-                    if any("_METADATA_FILE_RE" in norm_text(g.nodes[d].ast) and (".match(" in norm_text(g.nodes[d].ast) or ".fullmatch(" in norm_text(g.nodes[d].ast))
-                           and name.id in norm_text(g.nodes[d].ast) for d in defs if g.nodes[d].ast is not None):
-                        t = edge_target(g, b, "true")
-                        if t is not None and r.id in reachable_from(g, t, NORMAL):
-                            ok = True
-                            why = "returned under a successful match of the anchored regex"
+            rd = ctx.rd(f)
+            for pol, e, at in facts_at(ctx, f, r):
+                if pol in ("true", "nonnull") and isinstance(e, ast.Call) and isinstance(e.func, ast.Attribute) \
+                        and e.func.attr in ("match", "fullmatch") and "_METADATA_FILE_RE" in norm_text(e.func.value) \
+                        and e.args and isinstance(e.args[0], ast.Name) and e.args[0].id == name.id \
+                        and rd.reaching(at, name.id) == rd.reaching(r.id, name.id):
+                    ok = True
+                    why = "returned under a successful match of the anchored regex"
         ctx.ob("C10.R1", f, "returned name is in the metadata-file language", r, ok and a0 and a1, why or "name not validated")
 
 
@@ -174,7 +204,7 @@ def r2(ctx: Ctx) -> None:
     for r in rets:
         org = sl.origins(r.ast.value, r.id)  # type: ignore[union-attr]
         from_hint = hint_calls[0].ast in org["calls"]
-        from_rec = rec_calls[0].ast in org["calls"]
+        from_rec = any(rc.ast in org["calls"] for rc in rec_calls)
         if from_rec and not from_hint:
             ctx.ob("C10.R2", f, "fallback returns the recovery result", r, True, "recovery by scanning metadata files")
             continue
@@ -223,7 +253,7 @@ def r4(ctx: Ctx, rid: str) -> None:
     # Table.__init__ / load_table read refresh() is None as 'no table'
     ti = ctx.fn("transaction.Table.__init__")
     ctx.ob(rid, ti, "Table.__init__ initialises when refresh() is None (why fail-open matters)", None,
-           any("refresh" in b.text and "None" in b.text for b in ctx.cfg(ti).nodes if b.kind == "branch"), "", nontrivial=False)
+           any(known_null_call(ctx, ti, c, "refresh") for c in ctx.calls(ti, name="_initialize_table")), "", nontrivial=False)
 
 
 def r5(ctx: Ctx) -> None:
